@@ -87,7 +87,7 @@ pub fn plan(prop: &str) -> Option<Plan> {
         ),
         "C06" => p(
             "C06",
-            vec![("inputs", 3, false), ("faults", 2, false), ("mpp", 2, false), ("wire", 1, false), ("plain", 1, false), ("reads", 1, false)],
+            vec![("inputs", 3, false), ("faults", 2, false), ("mpp", 2, false), ("wire", 1, false), ("plain", 1, false), ("reads", 1, false), ("config", 1, false)],
             vec![],
             vec!["tramp.delivered", "c13.nontrampoline-delivered", "c06.undecodable-delivered"],
             "a run is non-trivial if at least one hook call was delivered",
@@ -596,7 +596,10 @@ pub fn run_sweep(prop: &'static str, base_seed: u64, n_bases: u64, findings: &re
         for k in 0..=ops.len() {
             for lose in [false, true] {
                 let mut pre = ops[..k].to_vec();
-                pre.push(Op::Crash { lose_answers: lose });
+                pre.push(Op::Crash {
+                    lose_answers: lose,
+                    down_s: 1,
+                });
                 jobs.push((seed, cfg.clone(), pre, "crash"));
                 crash_points += 1;
             }
